@@ -16,33 +16,34 @@ VARIABLES tid, l, st, verdict
 Cl(cond, name) == IF cond THEN {} ELSE {name}
 
 (* walk the observation against the reference: returns the set of violated clauses *)
-RECURSIVE Walk(_, _, _, _, _, _)
-Walk(s, cfg, obs, i, p, mode) ==
-  (* mode: "open" | "mustclose" (a message with faulty/closing framing was processed) | "refused" *)
+RECURSIVE Walk(_, _, _, _, _, _, _)
+Walk(s, cfg, obs, i, p, mode, closed) ==
+  (* mode: "open" | "openfree" (open, but the server may close: a request line without / with another HTTP version was served)
+           | "mustclose" (a message with faulty/closing framing was processed) | "refused" *)
   IF i > Len(obs) THEN
      LET m == Msg(s, p, cfg) IN
-     IF mode = "open" /\ ~m.inc /\ ~(m.refuseOK /\ ~m.deliverOK /\ FALSE)
+     IF ~m.inc /\ (mode = "open" \/ (mode = "openfree" /\ ~closed))
         THEN {"P01_complete_message_neither_delivered_nor_refused"} ELSE {}
   ELSE LET ev == obs[i]
            m == Msg(s, p, cfg)
-       IN IF mode # "open" THEN {"P01_nothing_after_refusal_or_mandatory_close"}
+       IN IF mode \in {"mustclose", "refused"} THEN {"P01_nothing_after_refusal_or_mandatory_close"}
           ELSE IF ev.k = "app" THEN
                  Cl(~m.inc /\ m.deliverOK, "P01_delivered_message_is_what_rfc9112_extracts")
             \cup (IF ~m.inc /\ m.deliverOK THEN
                     Cl(ev.method = m.method /\ ev.target = m.target, "P01_method_and_target_as_sent")
                \cup Cl(ev.body = m.body, "P01_body_delimited_by_its_framing")
-               \cup Walk(s, cfg, obs, i + 1, m.next, IF m.mustClose THEN "mustclose" ELSE "open")
+               \cup Walk(s, cfg, obs, i + 1, m.next, IF m.mustClose THEN "mustclose" ELSE IF m.verFree \/ mode = "openfree" THEN "openfree" ELSE "open", closed)
                   ELSE {})
           ELSE (* server-generated error response *)
                  Cl(m.refuseOK, "P01_only_faulty_messages_are_refused")
             \cup Cl(~m.refuseOK \/ ev.code \in m.codes, "P06_error_status_fits_the_fault")
             \cup Cl(ev.code \in {400, 413, 431, 501}, "P06_one_of_400_413_431_501")
-            \cup Walk(s, cfg, obs, i + 1, p, "refused")
+            \cup Walk(s, cfg, obs, i + 1, p, "refused", closed)
 
 Ended(s, cfg, obs) ==
   (* replay once more only to learn the final mode *)
   LET RECURSIVE Mode(_, _, _)
-      Mode(i, p, mode) == IF i > Len(obs) \/ mode # "open" THEN mode
+      Mode(i, p, mode) == IF i > Len(obs) \/ mode \in {"mustclose", "refused"} THEN mode
                           ELSE LET m == Msg(s, p, cfg) IN
                                IF obs[i].k = "app" THEN (IF ~m.inc /\ m.deliverOK THEN Mode(i + 1, m.next, IF m.mustClose THEN "mustclose" ELSE "open") ELSE "open")
                                ELSE "refused"
@@ -51,7 +52,7 @@ Ended(s, cfg, obs) ==
 TFailAll(s, e) ==
   LET cfg == s.cfg
       mode == Ended(cfg.s, cfg, e.obs)
-  IN Walk(cfg.s, cfg, e.obs, 1, 1, "open")
+  IN Walk(cfg.s, cfg, e.obs, 1, 1, "open", e.closed)
      \cup Cl(mode = "open" \/ e.closed, "P01_connection_closed_after_refusal_or_faulty_framing")
      \cup Cl(~e.raised, "P06_parsing_never_raises")
      \cup Cl(~e.hang, "P06_parsing_never_hangs")
